@@ -134,6 +134,7 @@ inductive Effect where
   | addPair (name : String)
   | delPair (name : String)
   | setMarkets (ms : List (String × Nat))
+  | fail                                 -- an execution step that returns an error
   deriving DecidableEq, Repr
 
 def updBridge (s : State) (b : String) (f : BridgeAcct → BridgeAcct) : State :=
@@ -191,6 +192,7 @@ def applyEffect (s : State) : Effect → Option State
                   numPairs := s.numPairs + 1 }
   | .delPair name => some { s with pairs := erase s.pairs name, numPairs := s.numPairs - 1 }
   | .setMarkets ms => some { s with markets := some ms }
+  | .fail => none
 
 def applyEffects (s : State) : List Effect → Option State
   | [] => some s
@@ -221,6 +223,7 @@ inductive Action where
   | pairsAdd (names : List String)
   | pairsDel (names : List String)
   | marketsChange (kind : Nat) (ms : List (String × Nat))   -- 0 create, 1 remove, otherwise update
+  | ibcRelayBad          -- an IbcRelay whose handler fails (non-fatally after Blackburn)
   deriving DecidableEq, Repr
 
 def isBridge (s : State) (x : String) : Bool := (lookup s.bridges x).isSome
@@ -312,6 +315,7 @@ def mutableOk (s : State) (signer : String) : Action → Bool
         | some acct => acct.withdrawer = signer && (lookup s.wd (b, id)).isNone
         | none => false)
     | none => !isBridge s signer
+  | .ibcRelayBad => signer ∈ s.relayers
   | .pairsAdd names => s.sudo = signer && names.all fun n => (lookup s.pairs n).isNone
   | .pairsDel names => s.sudo = signer && names.all fun n => (lookup s.pairs n).isSome
   | .marketsChange kind ms =>
@@ -362,6 +366,7 @@ def actionEffects (s : State) (signer : String) (pos : Nat) : Action → List Ef
     wdEffects bridge id blk ++
     [.debit from_ denom amount] ++
     (if !hasLeading denom chan then [.escAdd chan denom amount] else [])
+  | .ibcRelayBad => [.fail]
   | .pairsAdd names => names.map .addPair
   | .pairsDel names => names.map .delPair
   | .marketsChange kind ms =>
